@@ -27,6 +27,7 @@
   3 `spec_matches_property`       for every accepted configuration, under the invariants of compiled models, the
                                   code's rule is the property's rule
   4 `filtered_pairs_never_emitted` (4 parts) + `add_geom_pair_allocates_one_slot` + `explicit_pair_uses_pair_params`
+  5 `sign_bit_mask_passes`        the mask test is NON-ZERO on int32: an intersection with bit 31 set (negative) passes
 
   Assumed: `PairsInRange` (explicit pairs name geom ids in `[0, ngeom)`: an invariant of every `mjModel`; with ids out
   of range the NumPy write may wrap or raise IndexError) and, for 3, `Compiled`.  NOT assumed any more: that an
@@ -550,5 +551,27 @@ example : explicitId [(2, 1), (1, 2), (3, 0)] 1 2 = some 1 := by decide
 example : (List.range 6).map (fun k => Gen.Math.upper_tri_index (K := Float) 4 ((triu 4)[k]!).1 ((triu 4)[k]!).2)
     = [0, 1, 2, 3, 4, 5] := by decide
 example : filtered 3 [-2, -1, -2] [-1, -1, 0] = [((0, 2), (-1, -1)), ((1, 2), (-2, 0))] := by decide
+
+/-! ## The mask test is a NON-ZERO test on int32 values: bit 31 (a negative AND) counts -/
+
+/-- (5) a pair whose contype/conaffinity intersection is NEGATIVE as an int32 (bit 31 survives: `contype="-1"`, the
+    "all groups" idiom, or a group on bit 31) passes the mask test exactly like a positive one; a `> 0` test in
+    `put_model` would differ from this model (and from MuJoCo's `||`) on these, which the correspondence run exercises
+    in rotation (`harness/props/_c19_crosscheck.py`, modes `bit31` / `mixed`). -/
+theorem sign_bit_mask_passes (ct1 ca1 ct2 ca2 : Int) (h : Mjw.iand ct1 ca2 < 0 ∨ Mjw.iand ct2 ca1 < 0) :
+    maskBit ct1 ca1 ct2 ca2 = true :=
+  (maskBit_iff ct1 ca1 ct2 ca2).2 (h.imp (fun h => by omega) (fun h => by omega))
+
+/-- two free bodies, one geom each, masks given per geom -/
+def exMask (ct0 ca0 ct1 ca1 : Int) : Cfg :=
+  { ngeom := 2, geom_bodyid := asFun [1, 2], geom_contype := asFun [ct0, ct1], geom_conaffinity := asFun [ca0, ca1],
+    body_weldid := asFun [0, 1, 2], body_parentid := asFun [0, 0, 0], filterparent := true, pairs := [], excludes := [] }
+
+-- the hypothesis of `sign_bit_mask_passes` is satisfiable, and the table keeps such pairs
+example : Mjw.iand (-1) (-1) < 0 ∧ Mjw.iand (-2147483648) (-2147483647) < 0 := by decide
+example : pairTable (exMask (-1) (-1) (-1) (-1)) = .ok [-1] := by decide
+example : pairTable (exMask (-2147483648) 0 0 (-2147483647)) = .ok [-1] := by decide
+example : pairTable (exMask (-2147483648) 0 0 2147483647) = .ok [-2] := by decide
+example : pairTable (exMask (-1) 0 0 1) = .ok [-1] := by decide
 
 end Mjw.Props.C19
